@@ -11,8 +11,10 @@ SHAPE of its arguments:
  * `expand=True`, arguments `(B, n)` and `(B', n)`: `v`-terms get `unsqueeze_(1)`, `vp`-terms `unsqueeze_(0)`,
    so element `[i, j]` pairs row `i` of `v` with row `j` of `vp`;
  * `rho(v, expand=False)` with `vp=None`: `make_complex(probability(v))` row by row.
-Mixed ranks (one argument 1-D, the other 2-D) are not modelled; for unequal batch sizes with
-`expand=False` only the outcome class (torch broadcasting: error unless one of them is 1) is modelled
+Mixed ranks (one argument 1-D, the other 2-D) are OUTSIDE the property's call forms; they are modelled by
+outcome class / result shape (`rhoOutcome`) and, where the code returns a value, element by element
+(`rhoVecBatch`, `rhoBatchVec`); likewise a foreign argument dtype (`ArgDtype.other`). For unequal batch sizes
+with `expand=False` only the outcome class (torch broadcasting: error unless one of them is 1) is modelled
 (`pairedBatch`).
 -/
 import QV.Model.States
@@ -81,6 +83,63 @@ def rhoDiagBatch (am : PRBM α n h a) {B : Nat} (vs : Fin B → Fin n → α) : 
 /-- `rho(space, space)` for the generated Hilbert space: the full matrix the property talks about. -/
 def rhoFull (am ph : PRBM α n h a) : Fin (2 ^ n) → Fin (2 ^ n) → CPair α :=
   rhoMatrix am ph (fun k => spaceRow n k.val) (fun k => spaceRow n k.val)
+
+/-! ### argument ranks and dtypes (audit items C02-2, C02-3): outcome classes -/
+
+/-- rank of an argument of `rho`: a 1-D vector `(n,)` or a batch `(B, n)` -/
+inductive ArgRank where
+  | vec
+  | batch (B : Nat)
+  deriving DecidableEq, Repr
+
+/-- dtype of the argument tensors: the parameters' dtype (`torch.double`, what `generate_hilbert_space` returns) or
+anything else (`float32`, `int64`, …) -/
+inductive ArgDtype where
+  | double
+  | other
+  deriving DecidableEq, Repr
+
+/-- shape (after the leading real/imaginary axis of size 2) or exception class of `rho(v, vp, expand)` with both
+arguments given, by rank (density_matrix.py:265-274, purification_rbm.py:376-396, density_matrix.py:134-145):
+* both 1-D: a scalar (`gamma`'s `v.dim() < 2 and vp.dim() < 2` branch; `expand` ignored);
+* both batches: `expand=True` → `(B, B')`, `expand=False` → torch broadcasting of `(B,)` with `(B',)` (`pairedBatch`);
+* `v` 1-D, `vp` a batch: `pi` copes (`if expand and v.dim() >= 2`), but `gamma` runs its batched branch where
+  `temp1 = matmul(v, b) + …` is 0-dim and `temp1.unsqueeze_(1)` raises `IndexError` when `expand=True`;
+  `expand=False`: `temp1 + sign*temp2` broadcasts the scalar → `(B',)`;
+* `v` a batch, `vp` 1-D: `temp1.unsqueeze_(1)` is `(B,1)`, `temp2.unsqueeze_(0)` is `(1,)` → `(B, 1)` when `expand=True`,
+  `(B,)` when `expand=False`. -/
+def rhoRankOutcome (v vp : ArgRank) (expand : Bool) : Except PyErr (List Nat) :=
+  match v, vp with
+  | .vec, .vec => .ok []
+  | .batch B, .batch B' =>
+    if expand then .ok [B, B'] else
+      match pairedBatch B B' with
+      | .ok b => .ok [b]
+      | .error e => .error e
+  | .vec, .batch B' => if expand then .error .IndexError else .ok [B']
+  | .batch B, .vec => if expand then .ok [B, 1] else .ok [B]
+
+/-- `rho(v, vp=…, expand=…)` by rank AND dtype. `vp = none` is `vp=None`: with `expand=False` the call returns
+`make_complex(probability(v))` and `probability` casts its argument (`v.to(self.rbm_am.weights_W)`, neural_state.py:104) —
+any dtype is accepted, the result has the rank of `v`; otherwise `vp = v`. Every other form feeds the argument to
+`F.linear(v, weights_U, …)` against double parameters: a foreign dtype raises `RuntimeError` (before any shape is looked at:
+`pi` is evaluated first). -/
+def rhoOutcome (v : ArgRank) (vp : Option ArgRank) (expand : Bool) (dt : ArgDtype) : Except PyErr (List Nat) :=
+  match vp, expand with
+  | none, false => match v with | .vec => .ok [] | .batch B => .ok [B]
+  | _, _ =>
+    match dt with
+    | .other => .error .RuntimeError
+    | .double => rhoRankOutcome v (vp.getD v) expand
+
+/-- `rho(v, vps, expand=False)` with `v` 1-D and `vps` a `(B', n)` batch: entry `[j]` pairs `v` with row `j`. -/
+def rhoVecBatch (am ph : PRBM α n h a) {B' : Nat} (v : Fin n → α) (vps : Fin B' → Fin n → α) : Fin B' → CPair α :=
+  fun j => rho am ph v (vps j)
+
+/-- `rho(vs, vp, expand)` with `vs` a `(B, n)` batch and `vp` 1-D: entry `[i]` (`expand=False`) / `[i, 0]` (`expand=True`)
+pairs row `i` with `vp`. -/
+def rhoBatchVec (am ph : PRBM α n h a) {B : Nat} (vs : Fin B → Fin n → α) (vp : Fin n → α) : Fin B → CPair α :=
+  fun i => rho am ph (vs i) vp
 
 end Density
 end QV
